@@ -6,6 +6,9 @@ package main
 //
 // wire case:   input = ( (thread ...) (tid ...) [shape:<word>] ),  thread = ( (instance #unit) ... )
 //              obs   = ( race deadlock panic 0 )
+// (a prelude -- operations run one after the other before the goroutines start -- is the last
+// thread of the input; "race" is also set when an entry carries the data of another goroutine's
+// log call, see c09_edge.go)
 // (the third element, present for shaped scenarios only, says how the shared object was
 // derived before it was shared; it selects the real object graph and is not read by the model)
 // The input is the program at the level of the access summaries (which summaries each
@@ -42,11 +45,15 @@ type c09op struct {
 	mut      bool // changes shared state
 	mayPanic bool // Panic / Fatal-with-panic-hook: a panic is the documented behaviour
 	derive   bool // builds a new object (logger, core, handler) from the SHARED one: two goroutines doing it make siblings
+	edge     bool // a rare path (error return, nothing captured, disabled level, failing callback) on a logger of its own
 }
 
 type c09scen struct {
 	ops     []c09op
 	cleanup func()
+	// after the program: "" or a description of an entry that carries another log call's data
+	// (evidence of a race on a recycled object even when the race detector saw no conflicting pair)
+	check func() string
 }
 
 type c09prog struct {
@@ -54,6 +61,7 @@ type c09prog struct {
 	shape   string // shaped scenarios only: how the shared object was derived before it was shared (c09_scen.go)
 	warm    bool
 	class   string
+	pre     []int // prelude: operations run one after the other BEFORE the goroutines start
 	threads [][]int
 	sched   []int
 }
@@ -116,6 +124,8 @@ func c09programs(seed uint64, thorough bool) []c09prog {
 	var out []c09prog
 	nops := make([]int, len(c09scens))
 	derive := make([][]int, len(c09scens))
+	edge := make([][]int, len(c09scens))  // the edge operations of a scenario ...
+	plain := make([][]int, len(c09scens)) // ... and its ordinary ones that log
 	for i := range c09scens {
 		sc := c09build(i, false, "")
 		nops[i] = len(sc.ops)
@@ -123,11 +133,17 @@ func c09programs(seed uint64, thorough bool) []c09prog {
 			if sc.ops[j].derive {
 				derive[i] = append(derive[i], j)
 			}
+			if sc.ops[j].edge {
+				edge[i] = append(edge[i], j)
+			} else if sc.ops[j].mut && !sc.ops[j].mayPanic && len(sc.ops[j].units) > 3 {
+				plain[i] = append(plain[i], j)
+			}
 		}
 		sc.cleanup()
 	}
+	var pre []int // prelude of the next program made by mkS
 	mkS := func(scen int, shape string, warm bool, class string, threads [][]int) {
-		total := 0
+		total := len(pre)
 		for _, t := range threads {
 			total += len(t)
 		}
@@ -139,7 +155,8 @@ func c09programs(seed uint64, thorough bool) []c09prog {
 		for i := range sched {
 			sched[i] = r.Intn(len(threads) + 2) // + possibly spawned threads
 		}
-		out = append(out, c09prog{scen: scen, shape: shape, warm: warm, class: class, threads: threads, sched: sched})
+		out = append(out, c09prog{scen: scen, shape: shape, warm: warm, class: class, pre: pre, threads: threads, sched: sched})
+		pre = nil
 	}
 	// the shapes a directed class runs a scenario on
 	shapesOf := func(s int, all bool) []string {
@@ -205,8 +222,40 @@ func c09programs(seed uint64, thorough bool) []c09prog {
 			}
 		}
 	}
-	// 4. seeded random programs: 2..8 goroutines, 1..12 calls each, fresh or warmed up; a
-	// shaped scenario on a random shape
+	// 4. edge paths (scenarios that have edge operations): a rare path that mishandles a recycled
+	// object is harmless where it happens and breaks ordinary logging LATER, so every edge
+	// operation e is (a) run in the prelude, once and three times, before 2, 4 and 8 goroutines
+	// log through the ordinary loggers, each from functions of its own; (b) run in the prelude and
+	// again and again by one goroutine while the others log; (c) mixed with a second edge
+	// operation in the prelude and inside the logging goroutines
+	for s := range c09scens {
+		if len(edge[s]) == 0 || len(plain[s]) == 0 {
+			continue
+		}
+		po := func(i int) int { return plain[s][i%len(plain[s])] }
+		for ei, e := range edge[s] {
+			for vi, ng := range []int{2, 4, 8} {
+				th := make([][]int, ng)
+				for g := range th {
+					th[g] = []int{po(g + ei), po(g + ei + 3), po(g + ei + 5)}
+				}
+				pre = []int{e}
+				if vi == 1 {
+					pre = []int{e, e, e}
+				}
+				mkS(s, "", vi == 2, "edge-then-burst", th)
+			}
+			pre = []int{e}
+			mkS(s, "", false, "edge-interleaved", [][]int{{e, po(ei), e, po(ei + 1), e, po(ei + 2), e}, {po(ei + 1), po(ei + 2), po(ei), po(ei + 4)},
+				{po(ei + 2), po(ei), po(ei + 1), po(ei + 3)}, {po(ei + 6), e, po(ei + 7), e}})
+			e2 := edge[s][r.Intn(len(edge[s]))]
+			pre = []int{e, e2}
+			mkS(s, "", false, "edge-mixed", [][]int{{po(ei), e2, po(ei + 1), e}, {e, po(ei + 2), e2, po(ei + 3)}, {po(ei + 4), po(ei + 5), po(ei + 6)}})
+		}
+	}
+	// 5. seeded random programs: 2..8 goroutines, 1..12 calls each, fresh or warmed up, with (one
+	// in three) a prelude of 1..4 operations, edge operations first where the scenario has them;
+	// a shaped scenario on a random shape
 	N := 1400
 	if thorough {
 		N = 22000
@@ -231,6 +280,16 @@ func c09programs(seed uint64, thorough bool) []c09prog {
 		if warm {
 			class = "random-warm"
 		}
+		if r.Chance(33) {
+			class += "-prelude"
+			for n := r.Range(1, 4); n > 0; n-- {
+				if len(edge[s]) > 0 && !r.Chance(25) {
+					pre = append(pre, edge[s][r.Intn(len(edge[s]))])
+				} else {
+					pre = append(pre, r.Intn(nops[s]))
+				}
+			}
+		}
 		mkS(s, shape, warm, class, th)
 	}
 	return out
@@ -238,10 +297,31 @@ func c09programs(seed uint64, thorough bool) []c09prog {
 
 // ---------------------------------------------------------------- child: run programs
 
-func c09runProg(p *c09prog) (unexpected int, expected int, first string) {
+func c09runProg(p *c09prog) (unexpected int, expected int, first string, mixed string) {
 	sc := c09build(p.scen, p.warm, p.shape)
 	var wg sync.WaitGroup
 	var mu sync.Mutex
+	call := func(g, k, oi int) {
+		op := &sc.ops[oi]
+		defer func() {
+			if e := recover(); e != nil {
+				mu.Lock()
+				if op.mayPanic {
+					expected++
+				} else {
+					unexpected++
+					if first == "" {
+						first = fmt.Sprintf("%s: %v", op.name, e)
+					}
+				}
+				mu.Unlock()
+			}
+		}()
+		op.run(g, k)
+	}
+	for k, oi := range p.pre { // the prelude: sequential, before any goroutine exists
+		call(len(p.threads), k, oi)
+	}
 	start := make(chan struct{})
 	for g, ops := range p.threads {
 		wg.Add(1)
@@ -249,29 +329,25 @@ func c09runProg(p *c09prog) (unexpected int, expected int, first string) {
 			defer wg.Done()
 			<-start
 			for k, oi := range ops {
-				op := &sc.ops[oi]
-				func() {
-					defer func() {
-						if e := recover(); e != nil {
-							mu.Lock()
-							if op.mayPanic {
-								expected++
-							} else {
-								unexpected++
-								if first == "" {
-									first = fmt.Sprintf("%s: %v", op.name, e)
-								}
-							}
-							mu.Unlock()
-						}
-					}()
-					op.run(g, k)
-				}()
+				call(g, k, oi)
 			}
 		}(g, ops)
 	}
 	close(start)
 	wg.Wait()
+	if sc.check != nil {
+		func() {
+			defer func() {
+				if e := recover(); e != nil {
+					unexpected++
+					if first == "" {
+						first = fmt.Sprintf("check: %v", e)
+					}
+				}
+			}()
+			mixed = sc.check()
+		}()
+	}
 	func() {
 		defer func() {
 			if e := recover(); e != nil {
@@ -303,7 +379,10 @@ func c09child(seed uint64, thorough bool, from, to int) {
 			continue
 		}
 		fmt.Fprintf(os.Stderr, "@@BEGIN %d\n", i)
-		un, ex, first := c09runProg(&progs[i])
+		un, ex, first, mixed := c09runProg(&progs[i])
+		if mixed != "" {
+			fmt.Fprintf(os.Stderr, "@@MIX %d %s\n", i, strings.ReplaceAll(mixed, "\n", " "))
+		}
 		fmt.Fprintf(os.Stderr, "@@END %d %d %d %s\n", i, un, ex, strings.ReplaceAll(first, "\n", " "))
 	}
 	fmt.Fprintf(os.Stderr, "@@DONE\n")
@@ -321,6 +400,7 @@ type c09res struct {
 	expected int
 	panicMsg string
 	crash    string
+	mixed    string // an entry carrying another log call's data
 }
 
 func c09raceSummary(block []string) string {
@@ -418,6 +498,11 @@ func c09runChild(exe string, seed uint64, thorough bool, from int, res []c09res,
 				}
 				res[i].done = true
 				next = i + 1
+			case strings.HasPrefix(l, "@@MIX "):
+				f := strings.SplitN(strings.TrimPrefix(l, "@@MIX "), " ", 2)
+				if i, err := strconv.Atoi(f[0]); err == nil && i >= 0 && i < len(res) && len(f) > 1 {
+					res[i].mixed = f[1]
+				}
 			case strings.HasPrefix(l, "@@SKIP "):
 				i, _ := strconv.Atoi(strings.TrimPrefix(l, "@@SKIP "))
 				res[i].skipped = true
@@ -504,7 +589,7 @@ func c09(c *Ctx) {
 		i = n
 	}
 	os.Unsetenv("C09_SKIP")
-	races, deads, panics, expected, nskipped := 0, 0, 0, 0, 0
+	races, deads, panics, expected, nskipped, mixups := 0, 0, 0, 0, 0, 0
 	// side-channel lines are written after all case rows (ocaml/driver answers every line it reads,
 	// the runner pairs verdicts with rows only)
 	type viol struct {
@@ -542,10 +627,24 @@ func c09(c *Ctx) {
 			replayT[g] = L(names...)
 			threads = append(threads, L(calls...))
 		}
+		var preNames []SX
+		if len(p.pre) > 0 { // the prelude is one more thread of the model's program (which may interleave it: more behaviours, never fewer)
+			var calls []SX
+			for _, oi := range p.pre {
+				op := &scn.ops[oi]
+				preNames = append(preNames, c09word(op.name))
+				mut = mut || op.mut
+				total++
+				for _, cl := range op.units {
+					calls = append(calls, L(I(cl.inst), Str(cl.unit)))
+				}
+			}
+			threads = append(threads, L(calls...))
+		}
 		scn.cleanup()
 		r := &res[i]
 		bad := r.panics > 0 || r.crash != ""
-		obs := L(Bool(r.race), Bool(r.dead), Bool(bad), I(0))
+		obs := L(Bool(r.race || r.mixed != ""), Bool(r.dead), Bool(bad), I(0))
 		nt := "0"
 		if len(p.threads) >= 2 && total >= 4 && mut && !r.skipped {
 			nt = "1"
@@ -571,10 +670,17 @@ func c09(c *Ctx) {
 			name += ":" + p.shape + "." // the shape is part of the program: (scenario:shape. fresh|warm ...)
 		}
 		replay := L(c09word(name), c09word(fresh), L(replayT...), c09word("seed"), U(c.Seed), c09word("index"), I(i))
+		if len(p.pre) > 0 {
+			replay = L(c09word(name), c09word(fresh), c09word("prelude"), L(preNames...), L(replayT...), c09word("seed"), U(c.Seed), c09word("index"), I(i))
+		}
 		expected += r.expected
 		if r.race {
 			races++
 			addViol("race", fmt.Sprintf("race detector: %s [scenario %s, %s, %d goroutines]", r.raceText, sc.name, fresh, len(p.threads)), replay)
+		}
+		if r.mixed != "" {
+			mixups++
+			addViol("mixed", fmt.Sprintf("data of another goroutine's log call (a recycled object was in use by two goroutines): %s [scenario %s, %s, %d goroutines]", r.mixed, sc.name, fresh, len(p.threads)), replay)
 		}
 		if r.dead {
 			deads++
@@ -595,6 +701,7 @@ func c09(c *Ctx) {
 	c.Info("race_detector", raceOn)
 	c.Info("programs", strconv.Itoa(len(progs)))
 	c.Info("race_reports", strconv.Itoa(races))
+	c.Info("mixed_up_entries", strconv.Itoa(mixups))
 	c.Info("deadlocks", strconv.Itoa(deads))
 	c.Info("watchdog_expiries", strconv.Itoa(expiries))
 	c.Info("programs_not_run_after_deadlocks", strconv.Itoa(nskipped))
